@@ -30,11 +30,12 @@ type M = map[string]any
 
 // Driver owns one real provider instance and the naming of the identifiers it hands out.
 type Driver struct {
-	World *WorldJSON
-	Cfg   Cfg
-	Store *modelstore.Store
-	H     http.Handler
-	P     *op.Provider
+	World     *WorldJSON
+	Cfg       Cfg
+	midRotOld *modelstore.SignKey // the signing key a mid-request rotation (args.rotateMid) of the operation being served replaces
+	Store     *modelstore.Store
+	H         http.Handler
+	P         *op.Provider
 
 	reqName map[string]string // store request id -> r1..
 	reqID   map[string]string
@@ -389,8 +390,15 @@ func (d *Driver) atFacts(t M, raw, kind string, st *modelstore.Token) {
 		}
 		return
 	}
+	atAlg := string(d.Store.Signing.Alg)
+	if hb, err := base64.RawURLEncoding.DecodeString(strings.Split(raw, ".")[0]); err == nil {
+		var hdr M
+		if json.Unmarshal(hb, &hdr) == nil && S(hdr, "alg") != "" && d.Cfg.MidRot {
+			atAlg = S(hdr, "alg") // keys of several algorithms are published: the verifier is configured for the one the token names
+		}
+	}
 	claims, err := op.VerifyAccessToken[*oidc.AccessTokenClaims](context.Background(), raw, op.NewAccessTokenVerifier(Issuer, d.KeySet(),
-		op.WithSupportedAccessTokenSigningAlgorithms(string(d.Store.Signing.Alg))))
+		op.WithSupportedAccessTokenSigningAlgorithms(atAlg)))
 	if err != nil {
 		t["lib"] = "fail:" + err.Error()
 	} else {
@@ -466,6 +474,10 @@ func (d *Driver) ProjectIDT(raw, at, code string) M {
 		return t
 	}
 	payload, err := jws.Verify(&jose.JSONWebKey{Key: d.Store.Signing.Pub, KeyID: d.Store.Signing.KID})
+	if err != nil && d.midRotOld != nil {
+		// a rotation landed while this request was served: the key that was current when the request read it counts as well
+		payload, err = jws.Verify(&jose.JSONWebKey{Key: d.midRotOld.Pub, KeyID: d.midRotOld.KID})
+	}
 	if err != nil {
 		t["sig"] = "bad"
 		payload = jws.UnsafePayloadWithoutVerification()
@@ -943,6 +955,28 @@ func (d *Driver) Exec(opName string, a M) M {
 			kind = "error"
 		}
 		d.Store.SetFault(k, "", kind)
+	}
+	if B(a, "rotateMid") && d.Cfg.MidRot {
+		// environment: the operator's key rotation (to an algorithm of another hash family, new key id, old key still published) lands in
+		// the middle of this request: right after the request's first read of the signing key
+		d.Store.Lock()
+		old := d.Store.Signing
+		d.rot++
+		nk := *modelstore.GenKey(fmt.Sprintf("mid-%s-%d", otherHashFamily(string(old.Alg)), d.rot%3), jose.SignatureAlgorithm(otherHashFamily(string(old.Alg))))
+		nk.KID = fmt.Sprintf("%s-m%d", strings.SplitN(strings.SplitN(old.KID, "-r", 2)[0], "-m", 2)[0], d.rot)
+		d.Store.RotateMid = &nk
+		d.Store.Unlock()
+		d.midRotOld = old
+		defer func() {
+			d.midRotOld = nil
+			d.Store.Lock()
+			rotated := d.Store.RotateMid == nil
+			d.Store.RotateMid = nil
+			d.Store.Unlock()
+			if rotated {
+				d.ks = nil
+			}
+		}()
 	}
 	d.respJournal = nil
 	d.host = ""
